@@ -134,7 +134,7 @@ def rng(e, depth=0):
     if k == "call":
         if e[1] in PURE_LEN:
             return (0, 2**63 - 1)
-        if e[1] == "Ord::min" and len(e[3]) == 2:
+        if e[1] in ("Ord::min", "min") and len(e[3]) == 2:
             a, b = rng(e[3][0], depth + 1), rng(e[3][1], depth + 1)
             cands = [x for x in (a, b) if x]
             if cands:
